@@ -16,6 +16,8 @@ package file
 //@   ensures ret1 == nil ==> (ret0 != nil && fresh(ret0) && allv4(ret0))
 //@   ensures ret1 != nil ==> ret0 == nil
 //@   ensures StaticRecords == old(StaticRecords) && held(recLock) == old(held(recLock)) && rheld(recLock) == old(rheld(recLock))
+// every line of the file is looked at (C10: a malformed last line rejects the file, a valid one is served)
+//@   ensures[C10,internal:every-line-is-processed] ret1 == nil ==> rangeindex == len(bsplit(data, 10))
 //@   loop 1: invariant records != nil && fresh(records) && allv4(records) && StaticRecords == old(StaticRecords)
 
 //@ func LoadDHCPv6Records
@@ -23,6 +25,7 @@ package file
 //@   ensures ret1 == nil ==> (ret0 != nil && fresh(ret0) && allv6(ret0))
 //@   ensures ret1 != nil ==> ret0 == nil
 //@   ensures StaticRecords == old(StaticRecords) && held(recLock) == old(held(recLock)) && rheld(recLock) == old(rheld(recLock))
+//@   ensures[C10,internal:every-line-is-processed] ret1 == nil ==> rangeindex == len(bsplit(data, 10))
 //@   loop 1: invariant records != nil && fresh(records) && allv6(records) && StaticRecords == old(StaticRecords)
 
 // C10: an update is all-or-nothing - a file with any malformed line leaves the table in force,
